@@ -7,6 +7,7 @@ import (
 	"reflect"
 	"sort"
 	"strings"
+	"sync"
 	"time"
 
 	"github.com/paulmach/orb"
@@ -32,8 +33,15 @@ import (
 // the user-installed codec: encoding/json with different but equivalent settings, recording
 
 type c05Codec struct {
+	mu                           sync.Mutex // the concurrent cases share one installed codec
 	marshalCalls, unmarshalCalls int
 	mTypes, uTypes               map[string]int
+}
+
+func (c *c05Codec) counts() (m, u int) {
+	c.mu.Lock()
+	defer c.mu.Unlock()
+	return c.marshalCalls, c.unmarshalCalls
 }
 
 func newC05Codec() *c05Codec {
@@ -57,8 +65,10 @@ func c05TypeName(v any) string {
 }
 
 func (c *c05Codec) Marshal(v interface{}) ([]byte, error) {
+	c.mu.Lock()
 	c.marshalCalls++
 	c.mTypes[c05TypeName(v)]++
+	c.mu.Unlock()
 	var buf bytes.Buffer
 	enc := json.NewEncoder(&buf)
 	enc.SetEscapeHTML(false)
@@ -70,8 +80,10 @@ func (c *c05Codec) Marshal(v interface{}) ([]byte, error) {
 }
 
 func (c *c05Codec) Unmarshal(data []byte, v interface{}) error {
+	c.mu.Lock()
 	c.unmarshalCalls++
 	c.uTypes[c05TypeName(v)]++
+	c.mu.Unlock()
 	dec := json.NewDecoder(bytes.NewReader(data))
 	dec.UseNumber()
 	if err := dec.Decode(v); err != nil {
@@ -88,18 +100,31 @@ func (c *c05Codec) Unmarshal(data []byte, v interface{}) error {
 type c05Config struct {
 	name string
 	m, u bool
+	// shared != nil: the configuration is already in force for the whole case (concurrent
+	// cases install the codec once before their goroutines start); c05With then leaves the
+	// package variables alone and hands out this codec.
+	shared *c05Codec
 }
 
 var (
-	c05Default   = c05Config{"default", false, false}
-	c05Custom    = c05Config{"custom", true, true}
-	c05MarshOnly = c05Config{"custom-marshaler-only", true, false}
-	c05UnmOnly   = c05Config{"custom-unmarshaler-only", false, true}
+	c05Default   = c05Config{name: "default"}
+	c05Custom    = c05Config{name: "custom", m: true, u: true}
+	c05MarshOnly = c05Config{name: "custom-marshaler-only", m: true}
+	c05UnmOnly   = c05Config{name: "custom-unmarshaler-only", u: true}
 )
 
 // c05With runs f with the codec variables set as cfg says and always restores them to nil.
 // A panic inside f is returned as text.
 func c05With(cfg c05Config, f func(codec *c05Codec)) (pan string) {
+	if cfg.shared != nil {
+		defer func() {
+			if x := recover(); x != nil {
+				pan = fmt.Sprint(x)
+			}
+		}()
+		f(cfg.shared)
+		return ""
+	}
 	codec := newC05Codec()
 	defer func() {
 		osm.CustomJSONMarshaler = nil
@@ -1092,6 +1117,9 @@ func (run *c05Run) boundary(o *osm.OSM, r *gen.R) {
 }
 
 func (run *c05Run) recordCodec(cfg c05Config, codec *c05Codec) {
+	if cfg.shared != nil {
+		return // recorded once, when the goroutines are done
+	}
 	run.res.Add("codec_marshal_calls", int64(codec.marshalCalls))
 	run.res.Add("codec_unmarshal_calls", int64(codec.unmarshalCalls))
 	for t := range codec.mTypes {
@@ -1115,7 +1143,7 @@ func (run *c05Run) unmarshalFlow(path, errClass string, text []byte, newTarget f
 		var calls int
 		pan := c05With(cfg, func(codec *c05Codec) {
 			err = json.Unmarshal(text, target)
-			calls = codec.unmarshalCalls
+			_, calls = codec.counts()
 			run.recordCodec(cfg, codec)
 		})
 		run.res.Eval(path + "/" + cfg.name + "/" + run.docSig)
@@ -1156,7 +1184,7 @@ func (run *c05Run) marshalFlow(path, errClass string, v any, shape func(rp *c05R
 		var calls int
 		pan := c05With(cfg, func(codec *c05Codec) {
 			out, err = json.Marshal(v)
-			calls = codec.marshalCalls
+			calls, _ = codec.counts()
 			run.recordCodec(cfg, codec)
 		})
 		run.res.Eval(path + "/" + cfg.name + "/" + run.docSig)
@@ -1188,7 +1216,7 @@ func (run *c05Run) marshalFlow(path, errClass string, v any, shape func(rp *c05R
 		var ucalls int
 		pan = c05With(cfg, func(codec *c05Codec) {
 			uerr = json.Unmarshal(out, target)
-			ucalls = codec.unmarshalCalls
+			_, ucalls = codec.counts()
 			run.recordCodec(cfg, codec)
 		})
 		switch {
@@ -1406,6 +1434,208 @@ func c05PartNames(kind string) []string {
 	return p.AskedSorted()
 }
 
+// c05Retained: output handed out by a MarshalJSON method belongs to the caller. Every
+// MarshalJSON method of the library is called directly, the bytes are kept, other values are
+// marshalled (directly and through encoding/json), and only then the kept bytes are looked at
+// again: they must be unchanged and still unmarshal to the value they were written from.
+func c05Retained(res *fw.Result, run *c05Run, c fw.Case, r *gen.R) {
+	value := func() *osm.OSM {
+		g := jsonw.NewGen(r, jsonw.Random{R: r, P: 0.85})
+		d := &jsonw.Doc{VersionKind: jsonw.VersionString, Version: "0.6"}
+		g.Top(d)
+		for _, k := range jsonw.Kinds {
+			for i, n := 0, r.Range(1, 2); i < n; i++ {
+				d.Elements = append(d.Elements, g.Element(k))
+			}
+		}
+		v := c05Expect(d).o
+		if v.Version == "" {
+			v.Version = "0.6"
+		}
+		c05Annotate(v, r)
+		return v
+	}
+	type kept struct {
+		method   string
+		out, cpy []byte
+		verify   func(out []byte) string // "" = still denotes the original
+	}
+	for i := 0; i < int(c.Int("docs")); i++ {
+		v := value()
+		others := []*osm.OSM{value(), value(), value()}
+		for _, cfg := range run.configs {
+			rp := &c05Rep{res: res, cfg: cfg, raised: map[string]bool{}, input: "value: " + c05Trim(eq.Dump(v), 4000)}
+			var ks []kept
+			keep := func(method string, f func() ([]byte, error), verify func(out []byte) string) {
+				out, err := f()
+				res.Event(1)
+				if err != nil {
+					rp.violate("retained/"+method+"/marshal-error", method+" failed: "+err.Error())
+					return
+				}
+				ks = append(ks, kept{method, out, append([]byte(nil), out...), verify})
+			}
+			pan := c05With(cfg, func(codec *c05Codec) {
+				keep("OSM.MarshalJSON", v.MarshalJSON, func(out []byte) string {
+					got := &osm.OSM{}
+					if err := json.Unmarshal(out, got); err != nil {
+						return "does not unmarshal: " + err.Error()
+					}
+					sub := &c05Rep{res: res, cfg: cfg, raised: rp.raised, input: rp.input + "\nkept output: " + c05Trim(string(out), 3000)}
+					c05Compare(sub, "retained/OSM.MarshalJSON", v, got, nil)
+					return ""
+				})
+				tagsOf := func(name string, ts osm.Tags) {
+					keep("Tags.MarshalJSON", ts.MarshalJSON, func(out []byte) string {
+						var back osm.Tags
+						if err := back.UnmarshalJSON(out); err != nil {
+							return name + " tags do not unmarshal: " + err.Error()
+						}
+						if c05Dump(ts) != c05Dump(back) {
+							return name + " tags differ: " + eq.Diff(c05Dump(ts), c05Dump(back))
+						}
+						return ""
+					})
+				}
+				for _, e := range v.Nodes {
+					tagsOf("node", e.Tags)
+				}
+				for _, e := range v.Ways {
+					e := e
+					tagsOf("way", e.Tags)
+					keep("WayNodes.MarshalJSON", e.Nodes.MarshalJSON, func(out []byte) string {
+						var back osm.WayNodes
+						if err := back.UnmarshalJSON(out); err != nil {
+							return "do not unmarshal: " + err.Error()
+						}
+						if c05Dump(e.Nodes) != c05Dump(back) {
+							return "differ: " + eq.Diff(c05Dump(e.Nodes), c05Dump(back))
+						}
+						return ""
+					})
+				}
+				for _, e := range v.Relations {
+					e := e
+					tagsOf("relation", e.Tags)
+					keep("Members.MarshalJSON", e.Members.MarshalJSON, func(out []byte) string {
+						var back []osm.Member
+						if err := json.Unmarshal(out, &back); err != nil {
+							return "do not unmarshal: " + err.Error()
+						}
+						if c05Dump(e.Members) != c05Dump(osm.Members(back)) {
+							return "differ: " + eq.Diff(c05Dump(e.Members), c05Dump(osm.Members(back)))
+						}
+						return ""
+					})
+				}
+				for _, e := range v.Notes {
+					e := e
+					keep("Date.MarshalJSON", e.DateCreated.MarshalJSON, func(out []byte) string {
+						var back osm.Date
+						if err := json.Unmarshal(out, &back); err != nil {
+							return "does not unmarshal: " + err.Error()
+						}
+						if c05Dump(e.DateCreated) != c05Dump(back) {
+							return "differs: " + eq.Diff(c05Dump(e.DateCreated), c05Dump(back))
+						}
+						return ""
+					})
+				}
+				// now marshal other things
+				for _, o := range others {
+					o.MarshalJSON()
+					json.Marshal(o)
+					for _, w := range o.Ways {
+						w.Tags.MarshalJSON()
+						w.Nodes.MarshalJSON()
+					}
+					for _, rel := range o.Relations {
+						rel.Members.MarshalJSON()
+					}
+					for _, n := range o.Notes {
+						n.DateClosed.MarshalJSON()
+					}
+				}
+				res.Add("codec_marshal_calls", int64(codec.marshalCalls))
+			})
+			res.Eval("retained/" + cfg.name)
+			if pan != "" {
+				rp.violate("retained/panic", "panic: "+pan)
+				continue
+			}
+			for _, k := range ks {
+				res.Add("retained_outputs_checked", 1)
+				res.Put("retained_methods", k.method)
+				if !bytes.Equal(k.out, k.cpy) {
+					rp.violate("retained/"+k.method+"/output-overwritten", fmt.Sprintf("bytes returned by %s changed after other values were marshalled: returned %s now %s",
+						k.method, c05Trim(string(k.cpy), 300), c05Trim(string(k.out), 300)))
+					continue
+				}
+				if msg := k.verify(k.out); msg != "" {
+					rp.violate("retained/"+k.method+"/wrong-content", k.method+" output "+msg)
+				}
+			}
+		}
+	}
+	res.Sample = map[string]any{"documents": c.Int("docs"), "methods": []string{"OSM", "Tags", "WayNodes", "Members", "Date"}}
+}
+
+// c05Concurrent: many goroutines marshal and unmarshal their own generated values at the same
+// time; each result is compared with its own model. One configuration per phase: the codec
+// variables are set before the goroutines start and restored after they finished.
+func c05Concurrent(res *fw.Result, c fw.Case) {
+	res.Sample = map[string]any{"goroutines": c.Int("goroutines"), "documents_each": c.Int("docs"), "repetitions": c.Int("reps"), "variant": c.Variant}
+	for _, base := range []c05Config{c05Default, c05Custom} {
+		cfg := base
+		cfg.shared = newC05Codec()
+		func() {
+			defer func() {
+				osm.CustomJSONMarshaler = nil
+				osm.CustomJSONUnmarshaler = nil
+			}()
+			if cfg.m {
+				osm.CustomJSONMarshaler = cfg.shared
+			}
+			if cfg.u {
+				osm.CustomJSONUnmarshaler = cfg.shared
+			}
+			var wg sync.WaitGroup
+			start := make(chan struct{})
+			for g := 0; g < int(c.Int("goroutines")); g++ {
+				wg.Add(1)
+				go func(g int) {
+					defer wg.Done()
+					r := gen.New(gen.Sub(c.Seed, "c05conc-"+cfg.name, g), "c05")
+					run := &c05Run{res: res, configs: []c05Config{cfg}}
+					type job struct {
+						d  *jsonw.Doc
+						st *jsonw.Style
+					}
+					var jobs []job
+					for i := 0; i < int(c.Int("docs")); i++ {
+						gg := jsonw.NewGen(r, jsonw.Random{R: r, P: 0.8})
+						gg.MaxTags = 8
+						jobs = append(jobs, job{gg.Doc(r.Range(4, 14), []int{7, 63}[i%2]), c05Style(r)})
+					}
+					<-start
+					for rep := 0; rep < int(c.Int("reps")); rep++ {
+						for _, j := range jobs {
+							run.checkDoc(j.d, j.st, r, rep == 0)
+						}
+					}
+				}(g)
+			}
+			close(start)
+			wg.Wait()
+			m, u := cfg.shared.counts()
+			res.Add("codec_marshal_calls", int64(m))
+			res.Add("codec_unmarshal_calls", int64(u))
+			res.Add("concurrent_documents", c.Int("goroutines")*c.Int("docs")*c.Int("reps"))
+		}()
+	}
+	res.Eval("concurrent|" + c.Variant)
+}
+
 // c05BoundaryBase builds the base containers of the boundary-value enumeration.
 func c05BoundaryBase(k int, r *gen.R) *osm.OSM {
 	two := func(p jsonw.Presence) *osm.OSM {
@@ -1523,6 +1753,10 @@ func c05Exec(c fw.Case) *fw.Result {
 				res.Put("toggled_parts", fmt.Sprintf("%s/%v", n, invert))
 			}
 		}
+	case "retained":
+		c05Retained(res, run, c, r)
+	case "concurrent":
+		c05Concurrent(res, c)
 	case "boundary-value":
 		// value side: every boundary operator alone, each together with an all-zero top-level
 		// bounds, and all at once; on four base containers; as osm.OSM, as each block of an
@@ -1642,8 +1876,17 @@ func c05Cases(tier string, seed uint64) []fw.Case {
 		}
 	}
 	nRand, docs, nChange, nBDoc := 84, 8, 10, 12
+	nRet, reps := 4, 6
 	if tier == "thorough" {
 		nRand, docs, nChange, nBDoc = 12000, 16, 1000, 600
+		nRet, reps = 60, 40
+	}
+	for i := 0; i < nRet; i++ {
+		cs = append(cs, fw.Case{Kind: "retained", Seed: gen.Sub(seed, "c05ret", i), P: map[string]int64{"docs": 6}})
+	}
+	for i, v := range []string{"", "", "race", "race"} {
+		cs = append(cs, fw.Case{Kind: "concurrent", Variant: v, Seed: gen.Sub(seed, "c05conc", i),
+			P: map[string]int64{"goroutines": 16, "docs": 6, "reps": int64(reps)}})
 	}
 	for i := 0; i < nBDoc; i++ {
 		p := map[string]int64{"docs": int64(docs), "mask": []int64{63, 7, 56}[i%3], "p": []int64{100, 50, 80}[(i/3)%3],
@@ -1684,7 +1927,7 @@ func init() {
 		ID:    "C05",
 		Level: "exploration",
 		Rule: "typed osmjson document models (every optional key a present/absent bit) from the harness generator: (a) fixed minimal documents; (b) all 32 combinations of generator/copyright/attribution/license/bounds for each version spelling (absent, number, string, null); " +
-			"(c) per element kind every optional part alone and all-but-it; (c') boundary values: on the value side every operator of a fixed table (non-nil pointer to an all-zero struct for top-level / way / relation bounds, committed, discussion, nested change and its blocks; empty but non-nil slices; zero ids, versions, coordinates, timestamps; empty strings; all-zero elements and members) alone, combined with an all-zero top-level bounds, and all at once, on four base containers, each as osm.OSM, as every block of an osm.Change and element by element; on the document side written values drawn as 0 / \"\" / [] / {} (bounds with members left out) with probability 15-100 %; (d) PRNG documents over kind masks, presence probabilities 0..100 %, 0-12 elements, arbitrary UTF-8 incl. control characters, negative and >2^40 ids, equivalent float and RFC 3339 spellings, unknown keys at every level; (e) change documents. " +
+			"(c) per element kind every optional part alone and all-but-it; (c') boundary values: on the value side every operator of a fixed table (non-nil pointer to an all-zero struct for top-level / way / relation bounds, committed, discussion, nested change and its blocks; empty but non-nil slices; zero ids, versions, coordinates, timestamps; empty strings; all-zero elements and members) alone, combined with an all-zero top-level bounds, and all at once, on four base containers, each as osm.OSM, as every block of an osm.Change and element by element; on the document side written values drawn as 0 / \"\" / [] / {} (bounds with members left out) with probability 15-100 %; (c'') retained output: every MarshalJSON method of the library (OSM, Tags, WayNodes, Members, Date) called directly, the bytes kept while other values are marshalled, then checked unchanged and still denoting the original; concurrent: 16 goroutines marshalling / unmarshalling their own documents at once, one phase per codec configuration (codec installed before the goroutines start), plain and race builds; (d) PRNG documents over kind masks, presence probabilities 0..100 %, 0-12 elements, arbitrary UTF-8 incl. control characters, negative and >2^40 ids, equivalent float and RFC 3339 spellings, unknown keys at every level; (e) change documents. " +
 			"Each model is written by the independent writer (shuffled keys, white space, \\u escapes) and unmarshalled, and the value it denotes (plus way-node annotations) is marshalled, shape-checked on a generic parse and unmarshalled again; every step under the default and the recording user codec (a quarter of the cases also with only one of the two hooks installed). " +
 			"One evaluation = one (model, flow, configuration); a signature is (flow, configuration, version spelling, top-level presence mask, bounds, unknown keys, element kinds present).",
 		Assumptions: []string{
@@ -1700,6 +1943,9 @@ func init() {
 		Cases:   c05Cases,
 		Exec:    c05Exec,
 		Workers: 12,
+		// the harness' own shared state in the concurrent cases is mutex-guarded (fw.Result,
+		// the recording codec) or written before the goroutines start
+		RaceIsViolation: true,
 		Post: func(tier string, agg *fw.Agg) {
 			for _, name := range []string{"codec_marshal_argument_types", "codec_unmarshal_target_types"} {
 				var l []string
